@@ -28,9 +28,19 @@ type renderCase struct {
 	JSONVal    json.RawMessage `json:"json_value,omitempty"`
 	XMLVal     *xmlDoc         `json:"xml_value,omitempty"`
 	Bytes      core.B          `json:"bytes,omitempty"`
+	ErrValue   bool            `json:"json_value_implements_error,omitempty"` // the JSON value is a struct (decoded from json_value) whose type also has an Error method
 	PresetCT   bool            `json:"content_type_preset_by_earlier_handler,omitempty"`
 	Overlap    bool            `json:"overlapping_second_request,omitempty"` // a second request passes the Renderer middleware while this one holds its Render and has not rendered yet
 }
+
+// c17Payload is an ordinary, fully encodable API payload that happens to implement error as well.
+type c17Payload struct {
+	Code    int      `json:"code"`
+	Message string   `json:"message"`
+	Tags    []string `json:"tags,omitempty"`
+}
+
+func (p c17Payload) Error() string { return p.Message }
 
 type xmlItem struct {
 	K string `xml:"k,attr" json:"k"`
@@ -120,6 +130,10 @@ func genRenderCase(rng *rand.Rand) *renderCase {
 			panic(err)
 		}
 		c.JSONVal = b
+		if rng.Intn(12) == 0 {
+			c.ErrValue = true
+			c.JSONVal, _ = json.Marshal(c17Payload{Code: rng.Intn(600), Message: renderStrings[rng.Intn(len(renderStrings))], Tags: []string{"a", "<b>"}[:rng.Intn(3)]})
+		}
 	case "xml":
 		d := &xmlDoc{XMLName: xml.Name{Local: "doc"}, ID: rng.Intn(1000) - 500, Name: xmlSafe(renderStrings[rng.Intn(len(renderStrings))]), Title: xmlSafe(renderStrings[rng.Intn(len(renderStrings))])}
 		for i := rng.Intn(4); i > 0; i-- {
@@ -180,6 +194,20 @@ func renderVerdict(c *renderCase, o renderObs) string {
 		if err := json.Unmarshal(c.JSONVal, &in); err != nil {
 			return ""
 		}
+		if c.ErrValue {
+			var pl c17Payload
+			_ = json.Unmarshal(c.JSONVal, &pl)
+			var buf bytes.Buffer
+			enc := json.NewEncoder(&buf)
+			if c.JSONIndent != "" {
+				enc.SetIndent("", c.JSONIndent)
+			}
+			_ = enc.Encode(pl)
+			if !bytes.Equal(buf.Bytes(), o.body) {
+				return fmt.Sprintf("JSON body %q is not the encoding of the given value %q (a struct that also implements error)", clip(string(o.body)), clip(buf.String()))
+			}
+			return ""
+		}
 		if err := json.Unmarshal(o.body, &out); err != nil {
 			return fmt.Sprintf("body does not decode as JSON: %v (%q)", err, clip(string(o.body)))
 		}
@@ -229,6 +257,12 @@ func judgeRender(w *core.W, c *renderCase) {
 	var jsonIn interface{}
 	if c.Kind == "json" {
 		_ = json.Unmarshal(c.JSONVal, &jsonIn)
+		if c.ErrValue {
+			var pl c17Payload
+			_ = json.Unmarshal(c.JSONVal, &pl)
+			jsonIn = pl
+			w.Count("json-value-implementing-error")
+		}
 	}
 	// Overlap: the judged request (X-Who: a) parks after it has received its Render until a second
 	// request (X-Who: b) has passed the Renderer middleware and rendered its own plain text.
@@ -281,6 +315,11 @@ func judgeRender(w *core.W, c *renderCase) {
 	default:
 		f.Post("/r", hs...)
 	}
+	// another Renderer with other options, created later for another part of the application (or another
+	// instance): each Renderer keeps its own options
+	decoy := flamego.NewWithLogger(io.Discard)
+	decoy.Use(flamego.Renderer(flamego.RenderOptions{Charset: "decoy-charset", JSONIndent: "\t\t", XMLIndent: "\t\t"}))
+	f.Group("/decoy", func() { f.Get("/x", func(r flamego.Render) { r.PlainText(200, "decoy") }) }, flamego.Renderer(flamego.RenderOptions{Charset: "decoy2"}))
 	target := "/r"
 	if c.Where == "group" {
 		target = "/g/r"
@@ -388,7 +427,7 @@ func runC17(r *core.Run) {
 		}
 	})
 	r.GateCounter("status-sweep", 2000)
-	for _, k := range []string{"kind:json", "kind:xml", "kind:binary", "kind:text", "where:app", "where:group", "where:route", "custom-charset", "indented:json", "indented:xml", "overlapping-requests", "content-type-preset"} {
+	for _, k := range []string{"kind:json", "kind:xml", "kind:binary", "kind:text", "where:app", "where:group", "where:route", "custom-charset", "indented:json", "indented:xml", "overlapping-requests", "content-type-preset", "json-value-implementing-error"} {
 		r.GateCounter(k, 500)
 	}
 	r.Gate("distinct_nontrivial", r.NonTrivialCount(), 5000)
